@@ -38,7 +38,7 @@ def _vec(a):
 
 
 def run_traced(spec, fault=None, gp_faults=None, predict_faults=None, ei_script=None, max_filt_rows=600, want=("call", "filt", "ctl", "hist", "gp"),
-               es_script=None, iter_cap=None):
+               es_script=None, iter_cap=None, update_faults=None):
     """Execute one run described by `spec`; returns a picklable trace dict."""
     import logging
     logging.disable(logging.CRITICAL)
@@ -57,7 +57,7 @@ def run_traced(spec, fault=None, gp_faults=None, predict_faults=None, ei_script=
 
     fun, x0, lb, ub, plb, pub, cons_fn, opts, aux = gen.build(spec, fault=fault)
     ev = []
-    tr = {"spec": spec, "fault": fault, "gp_faults": gp_faults, "predict_faults": predict_faults, "ei_script": ei_script, "es_script": es_script, "events": ev, "error": None, "result": None,
+    tr = {"spec": spec, "fault": fault, "gp_faults": gp_faults, "predict_faults": predict_faults, "ei_script": ei_script, "es_script": es_script, "update_faults": update_faults, "events": ev, "error": None, "result": None,
           "hdr": None, "final": None, "log": None, "constructed": False}
     state = {"phase": ["pre"], "bads": None, "loop": 0, "gpfit_idx": 0, "cons_calls": []}
 
@@ -132,20 +132,20 @@ def run_traced(spec, fault=None, gp_faults=None, predict_faults=None, ei_script=
                     Ub = np.unique(Ub, axis=0)
                     Xb = function_logger.variable_transformer.inverse_transf(Ub)
                     C = np.asarray(cons_fn(Xb), dtype=float).reshape(-1)
-                    e["cons"] = [[[float(v) for v in r], bool(c > 0)] for r, c in zip(Ub, C)]
+                    e["cons"] = [[[float(v) for v in r], not bool(c <= 0)] for r, c in zip(Ub, C)]      # the filter keeps a row iff C <= 0 (NaN: dropped)
             else:
                 # large ES-internal sets: keep the output only (box / feasibility predicates)
                 e["out"] = _rows(out) if np.size(out) else []
                 if non_box_cons is not None and np.size(out):
                     Xb = function_logger.variable_transformer.inverse_transf(np.atleast_2d(out))
                     C = np.asarray(cons_fn(Xb), dtype=float).reshape(-1)
-                    e["cons"] = [[[float(v) for v in r], bool(c > 0)] for r, c in zip(np.atleast_2d(out), C)]
+                    e["cons"] = [[[float(v) for v in r], not bool(c <= 0)] for r, c in zip(np.atleast_2d(out), C)]
             if cons_fn is not None and np.size(out):
                 # feasibility of what the filter lets through, judged by the run's own constraint function - whether or not the
                 # filter was handed it
                 Xo = function_logger.variable_transformer.inverse_transf(np.atleast_2d(np.asarray(out, dtype=float)))
                 Co = np.asarray(cons_fn(Xo), dtype=float).reshape(-1)
-                e["out_infeasible"] = int(np.sum(Co > 0))
+                e["out_infeasible"] = int(np.sum(~(Co <= 0)))
             ev.append(("FILT", e))
         return out
 
@@ -348,8 +348,8 @@ def run_traced(spec, fault=None, gp_faults=None, predict_faults=None, ei_script=
         patch(IterationHistory, "record", w_rec)
 
     # ---- GP training sets / acquisition -------------------------------------------------------
-    if "gp" in want or gp_faults:
-        _install_gp_wrappers(patch, state, ev, bb, gpt, es, gp_faults)
+    if "gp" in want or gp_faults or update_faults:
+        _install_gp_wrappers(patch, state, ev, bb, gpt, es, gp_faults, update_faults)
     if predict_faults:
         # non-finite GP prediction at the incumbent: the k-th call of _get_target_from_gp_ sees NaN predictions
         import gpyreg as gpr
@@ -384,7 +384,17 @@ def run_traced(spec, fault=None, gp_faults=None, predict_faults=None, ei_script=
             state["bads"] = b
             tr["constructed"] = True
             vt = b.var_transf
-            tr["hdr"] = {"D": b.D, "lb": _vec(b.lower_bounds), "ub": _vec(b.upper_bounds),
+            # reference internal box: a FRESH transformer built from copies of the normalised original bounds (whatever the run does to its
+            # own bound arrays later cannot reach it)
+            from pybads.variable_transformer import VariableTransformer as _VT
+            try:
+                _log = np.asarray(vt.apply_log_t).copy()
+                vt_ref = _VT(b.D, np.array(vt.orig_lb, dtype=float).copy(), np.array(vt.orig_ub, dtype=float).copy(),
+                             np.array(vt.orig_plb, dtype=float).copy(), np.array(vt.orig_pub, dtype=float).copy(), _log)
+                lb_ref, ub_ref = _vec(vt_ref.lb), _vec(vt_ref.ub)
+            except Exception:
+                lb_ref, ub_ref = None, None
+            tr["hdr"] = {"D": b.D, "lb": _vec(b.lower_bounds), "ub": _vec(b.upper_bounds), "lb_ref": lb_ref, "ub_ref": ub_ref,
                          "plb": _vec(b.plausible_lower_bounds), "pub": _vec(b.plausible_upper_bounds),
                          "orig_lb": _vec(vt.orig_lb), "orig_ub": _vec(vt.orig_ub), "orig_plb": _vec(vt.orig_plb), "orig_pub": _vec(vt.orig_pub),
                          "log": [bool(v) for v in np.asarray(vt.apply_log_t).reshape(-1)],
@@ -436,7 +446,8 @@ def run_traced(spec, fault=None, gp_faults=None, predict_faults=None, ei_script=
             # independent re-check of every target input against the user's constraint and the hard bounds
             if cons_fn is not None and aux["calls"]["xs"]:
                 C = np.asarray(cons_fn(np.array(aux["calls"]["xs"])), dtype=float).reshape(-1)
-                tr["final"]["cons_at_calls"] = [bool(c > 0) for c in C]
+                tr["final"]["cons_at_calls"] = [bool(c > 0) for c in C]             # "reports a violation" (C02): value > 0
+                tr["final"]["cons_unsat_at_calls"] = [not bool(c <= 0) for c in C]  # "not satisfied" (C17): not (value <= 0), NaN included
         else:
             tr["final"] = {"target_calls": aux["calls"]["n"]}
     finally:
@@ -446,7 +457,7 @@ def run_traced(spec, fault=None, gp_faults=None, predict_faults=None, ei_script=
     return tr
 
 
-def _install_gp_wrappers(patch, state, ev, bb, gpt, es, gp_faults):
+def _install_gp_wrappers(patch, state, ev, bb, gpt, es, gp_faults, update_faults=None):
     """GPFIT/ACQ events (C15) and LinAlgError injection into GP.fit (C16)."""
     import gpyreg as gpr
     GP = gpr.GP
@@ -474,7 +485,11 @@ def _install_gp_wrappers(patch, state, ev, bb, gpt, es, gp_faults):
     o_lgf = gpt.local_gp_fitting
 
     def w_lgf(gp, current_point, function_logger, options, optim_state, iteration_history, refit_flag):
-        r = o_lgf(gp, current_point, function_logger, options, optim_state, iteration_history, refit_flag)
+        state["in_lgf"] = True
+        try:
+            r = o_lgf(gp, current_point, function_logger, options, optim_state, iteration_history, refit_flag)
+        finally:
+            state["in_lgf"] = False
         g = r[0]
         ev.append(("LOCALFIT", {"refit": bool(refit_flag), "exit": _f(r[1]), "nX": int(g.X.shape[0]), "ny": int(g.y.shape[0]),
                                 "s2": None if g.s2 is None else _vec(g.s2), "phase": state["phase"][-1],
@@ -536,6 +551,23 @@ def _install_gp_wrappers(patch, state, ev, bb, gpt, es, gp_faults):
 
     patch(GP, "fit", w_fit)
 
+    if update_faults:
+        # LinAlgError in the k-th posterior update `gp.update(hyp=...)` made inside local_gp_fitting (Cholesky failure of the posterior)
+        o_upd = GP.update
+
+        def w_upd(self, *a, **kw):
+            import sys as _sys
+            caller = _sys._getframe(1).f_code.co_name
+            if state.get("in_lgf") and "hyp" in kw and caller == "local_gp_fitting":      # the posterior update at the end of local_gp_fitting itself
+                k = state.setdefault("upd_idx", 0)
+                state["upd_idx"] = k + 1
+                if k in update_faults:
+                    ev.append(("UPDFAULT", {"k": k}))
+                    raise np.linalg.LinAlgError("injected: posterior update failed")
+            return o_upd(self, *a, **kw)
+
+        patch(GP, "update", w_upd)
+
 
 # ------------------------------------------------------------------------------------------------
 # pools
@@ -595,7 +627,7 @@ def cached(tag, seed, tier, make_jobs):
         if fn.startswith(tag + "_") and fn.endswith(".pkl") and fn != key:
             try:
                 fp = os.path.join(cdir, fn)
-                if time.time() - os.path.getmtime(fp) > 2 * 3600:     # recent entries may belong to a concurrent check (other tier / seed)
+                if time.time() - os.path.getmtime(fp) > 1800:     # recent entries may belong to a concurrent check (other tier / seed)
                     os.remove(fp)
             except OSError:
                 pass
